@@ -30,6 +30,22 @@ def library():
         "is_pos": Fn(["n"], Block([], Bin(">", V("n"), I(0))), ret="bool"),
         "nullfn": Fn([], Block([])),
         "glist_push": Fn(["n"], Block([Expr(MCall(V("glist"), "push", V("n")))], MCall(V("glist"), "len")), ret="int"),
+        # loops over values that outlive the call (globals, literals of the program text), left early in every way: the
+        # next call - or the next loop of the same call - starts at the beginning again
+        "find_char": Fn(["c"], Block([Let("i", I(0)), For("ch", V("gtext"), Block([
+            Expr(If(Bin("==", V("ch"), V("c")), Block([Ret(V("i"))]))), Expr(Asg(V("i"), I(1), "+="))]))], I(-1)), ret="int", pts=["str"]),
+        "first_multiple": Fn(["n"], Block([For("i", V("grange"), Block([
+            Expr(If(Bin("&&", Bin(">", V("i"), I(0)), Bin("==", Bin("%", V("i"), V("n")), I(0))), Block([Ret(V("i"))])))]))], I(-1)), ret="int"),
+        "hex_value": Fn(["c"], Block([Let("i", I(0)), For("ch", S("0123456789abcdef"), Block([
+            Expr(If(Bin("==", V("ch"), V("c")), Block([Ret(V("i"))]))), Expr(Asg(V("i"), I(1), "+="))]))], I(-1)), ret="int", pts=["str"]),
+        "count_until": Fn(["c"], Block([Let("n", I(0)), For("ch", V("gtext"), Block([
+            Expr(If(Bin("==", V("ch"), V("c")), Block([Break()]))), Expr(Asg(V("n"), I(1), "+="))])),
+            For("ch", V("gtext"), Block([Expr(Asg(V("n"), I(10), "+="))]))], V("n")), ret="int", pts=["str"]),
+        "find_throw": Fn(["c"], Block([Let("n", I(0))], Try(Block([For("ch", V("gtext"), Block([
+            Expr(If(Bin("==", V("ch"), V("c")), Block([Expr(Call("throw", S("found")))]))), Expr(Asg(V("n"), I(1), "+="))]))], I(-1)),
+            "e", Block([], V("n")))), ret="int", pts=["str"]),
+        "find_in_glist": Fn(["n"], Block([Let("i", I(0)), For("x", V("glist"), Block([
+            Expr(If(Bin("==", V("x"), V("n")), Block([Ret(V("i"))]))), Expr(Asg(V("i"), I(1), "+="))]))], I(-1)), ret="int"),
         # threads without host-visible effects
         "idle": Fn(["n"], Block([Let("i", I(0)), While(Bin("<", V("i"), V("n")), Block([Expr(Asg(V("i"), I(1), "+="))]))])),
         "spin": Fn([], Block([Loop(Block([]))])),
@@ -39,7 +55,7 @@ def library():
                                          Expr(Call("throw", S("boom")))])),
         "main": Fn([], Block([])),
     }
-    globs = [("counter", I(0)), ("glist", List(I(0)))]
+    globs = [("counter", I(0)), ("glist", List(I(0))), ("gtext", S("abcdef")), ("grange", Range(I(0), I(9)))]
     return fns, globs
 
 
@@ -47,7 +63,8 @@ CALLS = [("add", [1, 2]), ("add", [-5, 5]), ("sub3", [10, 3, 2]), ("sub3", [1, 2
          ("ret_from_loop", [20]), ("ret_from_try", [4]), ("ret_from_try", [-4]), ("ret_from_nested", [2]),
          ("ret_from_nested", [9]), ("thrower", [0]), ("thrower", [1]), ("catcher", [0]), ("catcher", [1]), ("div", [7, 2]),
          ("div", [7, 0]), ("deep", [5]), ("mk_list", [3]), ("id_str", ["x y"]), ("is_pos", [1]), ("nullfn", []),
-         ("glist_push", [7]), ("spawner_ok", [5]), ("spawner_boom", [3])]
+         ("glist_push", [7]), ("spawner_ok", [5]), ("spawner_boom", [3]),
+         ("find_char", ["c"]), ("first_multiple", [3]), ("hex_value", ["a"]), ("count_until", ["d"]), ("find_throw", ["b"]), ("find_in_glist", [0])]
 
 
 def lit(v):
